@@ -137,6 +137,18 @@ pub fn execute(check: &dyn Check, p: &Params, tape_data: Option<Vec<u64>>, want_
     };
     let mut ctx = Ctx::new(p.trace, want_sample);
     LAST_PANIC.with(|lp| *lp.borrow_mut() = None);
+    // the process-local time zone is part of the environment: nothing in nexrad may depend on it
+    // (POSIX TZ strings, no tz database needed); decided by the run seed like the logging switch
+    let tz = match (p.seed >> 3) % 8 {
+        3 => "EST5EDT,M3.2.0,M11.1.0",
+        5 => "NZST-12NZDT,M9.5.0,M4.1.0/3",
+        6 => "<+0545>-5:45",
+        _ => "UTC0",
+    };
+    std::env::set_var("TZ", tz);
+    if tz != "UTC0" {
+        ctx.count("non_utc_local_time_zone");
+    }
     // a quarter of the runs execute with trace logging enabled (decided by the run seed)
     let logging = p.seed % 4 == 1;
     crate::logsink::set(logging);
